@@ -29,7 +29,7 @@ from ..core import Ctx
 from ..exc import EscapeAnalysis, ExcModel
 from ..loader import AnalysisError, ClassInfo, FunctionInfo, walk_scope
 from ..resolve import last_attr
-from ..util import calls, cond_conjuncts, impl_invocations, in_body, is_none_test, mini_eval, one, some
+from ..util import calls, is_none_test, mini_eval, one
 from ._g4_helpers import ReleaseFlow, bind_args, live_exc_pred, txt, require_count
 
 META = {
